@@ -426,12 +426,14 @@ func judgeC06Literal(c *core.Case, cfg *core.Config) core.Verdict {
 		case 1:
 			want = int(n + I)
 		case 3:
-			k := lo + n - 1 - I // elements lo..lo+n-1 that are > I
-			if k > n {
-				k = n
-			}
-			if k < 0 {
+			// elements lo..lo+n-1 that are > I (no arithmetic on I: it may be the smallest or largest int64)
+			k := n
+			switch {
+			case I < lo:
+			case I >= lo+n-1:
 				k = 0
+			default:
+				k = lo + n - 1 - I
 			}
 			want = int(k)
 		case 4:
